@@ -673,7 +673,7 @@ class QAM(Modulator):
 
         # Check if M is an even power of 2
         power = math.log(M, 2)
-        if (power % 2 != 0) or (2**power != M):
+        if (M < 4) or (power % 2 != 0) or (2**power != M):
             raise ValueError("M must be a square power of 2")
 
         symbols = self._createConstellation(M)
